@@ -45,8 +45,12 @@ class CkptWorld:
     """The ``programs.ENV`` object for checkpointed runs; records what the generated user code does across instances."""
 
     def __init__(self, restore_at: Sequence[int], resume_script: Sequence[Any], medium: str, horizon: int = 3000,
-                 gate_values: Optional[Callable[[int], Any]] = None) -> None:
+                 gate_values: Optional[Callable[[int], Any]] = None, exit_restore_at: Sequence[int] = ()) -> None:
         self.restore_at = set(restore_at)
+        # checkpoints taken in the *exit* hook of the k-th RUNNING state (the step has returned, the state change has not
+        # happened yet): restoring such a checkpoint legitimately runs that step again
+        self.exit_restore_at = set(exit_restore_at)
+        self.exit_boundary = 0
         self.resume_script = list(resume_script)
         self.medium = medium
         self.horizon = horizon
@@ -69,6 +73,17 @@ class CkptWorld:
     def attach(self, proc: Any) -> None:
         self.proc = proc
         proc.add_state_event_callback(state_machine.StateEventHook.ENTERED_STATE, self._entered)
+        if self.exit_restore_at:
+            proc.add_state_event_callback(state_machine.StateEventHook.EXITING_STATE, self._exiting)
+
+    def _exiting(self, sm: Any, hook: Any, next_state: Any) -> None:
+        if sm.state == PS.RUNNING:
+            self.exit_boundary += 1
+            if self.exit_boundary in self.exit_restore_at:
+                self.exit_restore_at.discard(self.exit_boundary)  # the re-run of the step exits again: not a new boundary
+                self.exit_boundary -= 1
+                self.snapshot = through(persistence.Bundle(sm), self.medium)
+                raise Abandon()
 
     def _entered(self, sm: Any, hook: Any, from_state: Any) -> None:
         frm = from_state.LABEL if from_state is not None else None
